@@ -351,6 +351,13 @@ impl FsFault {
             Some(e) if !item.is_error && rng.chance(0.3) => vec![&item.input, e],
             _ => vec![&item.input],
         };
+        // a byte-order mark in front (editors on other platforms add one), also in front of nothing
+        let bom_text;
+        let mut texts = texts;
+        if rng.chance(0.12) {
+            bom_text = if rng.chance(0.2) { "\u{feff}".to_string() } else { format!("{}{}", '\u{feff}', item.input) };
+            texts.push(&bom_text);
+        }
         for text in texts {
             if text.len() > 4096 {
                 continue;
